@@ -492,6 +492,9 @@ def iv_cmp(p):
     ob.assume.append(le_end(sa, sb))
     ob.assume.append(le_end(ta, tb))
     s, t = (sa.tup, sb.tup), (ta.tup, tb.tup)
+    if p.get('alias'):
+        # an interval compared with ITSELF (the same endpoint tuple / the same object): x < x is None unless x is a point
+        ta, tb, t = sa, sb, s
     Li = libmpi()
     entry = p.get('entry', 'libmp')
     if entry == 'libmp':
@@ -502,6 +505,8 @@ def iv_cmp(p):
         iv = mpmath.iv
         iv.prec = 53
         so, to = iv.make_mpf(s), iv.make_mpf(t)
+        if p.get('alias'):
+            to = so
         meth = {'<': '__lt__', '<=': '__le__', '>': '__gt__', '>=': '__ge__', '==': '__eq__', '!=': '__ne__', 'in': '__contains__'}[fn]
         outs = ob.run(getattr(iv.mpf, meth), [to, so] if fn == 'in' else [so, to])
         rel = fn
@@ -541,6 +546,8 @@ def iv_cmp_concrete(p, m):
     base = m.get('base', 0)
     s = (conc_end(m, 'sa', ss[0], base), conc_end(m, 'sb', ss[1], base))
     t = (conc_end(m, 'ta', ts[0], base), conc_end(m, 'tb', ts[1], base))
+    if p.get('alias'):
+        t = s
     Li = libmpi()
     if p.get('entry', 'libmp') == 'libmp':
         r = getattr(Li, fn)(s, t)
@@ -549,6 +556,8 @@ def iv_cmp_concrete(p, m):
         import mpmath
         iv = mpmath.iv
         so, to = iv.make_mpf(s), iv.make_mpf(t)
+        if p.get('alias'):
+            to = so
         r = {'<': lambda: so < to, '<=': lambda: so <= to, '>': lambda: so > to, '>=': lambda: so >= to, '==': lambda: so == to,
              '!=': lambda: so != to, 'in': lambda: so in to}[fn]()
         rel = fn
